@@ -50,6 +50,12 @@ def ground_apps(exprs, name):
     return out
 
 
+def _portable(text):
+    """z3's simplifier splits seq.nth into seq.nth_i (index in range) / seq.nth_u (out of range), which only z3 parses;
+    both are seq.nth restricted to a sub-domain, so writing seq.nth back is equivalent"""
+    return text.replace('seq.nth_i ', 'seq.nth ').replace('seq.nth_u ', 'seq.nth ')
+
+
 def to_smt2_bounded(assumptions, goal):
     """refutation mode: quantified A-STR axioms are replaced by their instances on the ground terms present"""
     fs = list(assumptions) + [z3.Not(goal)]
@@ -65,7 +71,7 @@ def to_smt2_bounded(assumptions, goal):
     s.add(*inst)
     s.add(*[f for _, f in gax])
     s.add(*fs)
-    return s.to_smt2(), ['ground instances only'] + [l for l, _ in gax]
+    return _portable(s.to_smt2()), ['ground instances only'] + [l for l, _ in gax]
 
 
 _gax_cache = {}
@@ -133,7 +139,7 @@ def to_smt2(assumptions, goal):
     s.add(*axioms)
     s.add(*[f for _, f in gax])
     s.add(*fs)
-    return s.to_smt2(), sorted(added) + [l for l, _ in gax]
+    return _portable(s.to_smt2()), sorted(added) + [l for l, _ in gax]
 
 
 def _z3_api(smt2, timeout_ms, want_model):
